@@ -240,11 +240,19 @@ impl<T> Mutex<T> { #[verifier::external_body] pub fn new(t: T) -> Self { unimple
 #[verifier::external_body]
 #[verifier::reject_recursive_types(T)]
 pub struct RwLock<T> { p: std::marker::PhantomData<T> }
-impl<T> RwLock<T> { #[verifier::external_body] pub fn new(t: T) -> Self { unimplemented!() } }
+impl<T> RwLock<T> {
+    /// what the lock holds when it is created (afterwards: shared state)
+    pub uninterp spec fn sp_init(&self) -> T;
+    #[verifier::external_body] pub fn new(t: T) -> (r: Self) ensures r.sp_init() == t { unimplemented!() }
+}
 #[verifier::external_body]
 pub struct AtomicBool { x: u8 }
-impl AtomicBool { #[verifier::external_body] pub fn new(v: bool) -> Self { unimplemented!() } }
-impl Default for AtomicBool { #[verifier::external_body] fn default() -> Self { unimplemented!() } }
+impl AtomicBool {
+    /// the value the flag is created with (afterwards: shared state)
+    pub uninterp spec fn sp_init(&self) -> bool;
+    #[verifier::external_body] pub fn new(v: bool) -> (r: Self) ensures r.sp_init() == v { unimplemented!() }
+}
+impl Default for AtomicBool { #[verifier::external_body] fn default() -> (r: Self) ensures !r.sp_init() { unimplemented!() } }
 impl Default for AtomicInstant { #[verifier::external_body] fn default() -> Self { unimplemented!() } }
 /// src/common/concurrent/atomic_time.rs (RwLock<Option<Instant>>): ASSUMED here; sequential meaning checked on the real code by
 /// the Kani harness `atomic_instant_roundtrip`. `sp_instant()` = what this call reads.
@@ -275,7 +283,23 @@ pub struct Deques<K> { p: std::marker::PhantomData<K> }
 impl<K> Default for Deques<K> { #[verifier::external_body] fn default() -> Self { unimplemented!() } }
 #[verifier::external_body]
 pub struct FrequencySketch { x: u64 }
-impl Default for FrequencySketch { #[verifier::external_body] fn default() -> Self { unimplemented!() } }
+pub uninterp spec fn sketch_default() -> FrequencySketch;
+impl Default for FrequencySketch { #[verifier::external_body] fn default() -> (r: Self) ensures r == sketch_default() { unimplemented!() } }
+impl FrequencySketch {
+    pub uninterp spec fn ensured(&self, cap: u32) -> FrequencySketch;
+//@@ SIG file=src/common/frequency_sketch.rs owner=FrequencySketch name=ensure_capacity
+    #[verifier::external_body]
+    pub fn ensure_capacity(&mut self, cap: u32) ensures *final(self) == old(self).ensured(cap) { unimplemented!() }
+//@@ END
+}
+pub mod common {
+    use vstd::prelude::*;
+    /// Kani harness `sketch_capacity_clamps` (complete)
+//@@ SIG file=src/common.rs owner=- name=sketch_capacity
+    #[verifier::external_body]
+    pub fn sketch_capacity(max_capacity: u64) -> (r: u32) ensures r >= 128 { unimplemented!() }
+//@@ END
+}
 #[verifier::external_body]
 pub struct Clock { x: u64 }
 /// `Arc<dyn Fn(&K, &V) -> u32 + Send + Sync>` (Verus rejects `dyn` with more than one trait): opaque
@@ -543,6 +567,8 @@ impl<K, V, S: Clone> Inner<K, V, S> {
         requires initial_capacity.is_some() ==> initial_capacity.unwrap() + WRITE_LOG_SIZE <= usize::MAX, //@ [C08]
         // C17: every knob is stored exactly as given, whatever the initial capacity
         ensures r.built_with(max_capacity, build_hasher, weigher, time_to_live, time_to_idle), r.read_op_ch == read_op_ch, r.write_op_ch == write_op_ch, //@ [C17]
+            // ... and the cache starts with the popularity estimator off and untouched, whatever `initial_capacity` is
+            !r.frequency_sketch_enabled.sp_init(), r.frequency_sketch.sp_init() == sketch_default(), //@ [C17,C14,C13]
     {
         let initial_capacity = initial_capacity
             .map(|cap| /*@+*/-> (c: usize) requires cap + WRITE_LOG_SIZE <= usize::MAX {/*@-*/ cap + WRITE_LOG_SIZE /*@+*/}/*@-*/)
